@@ -39,6 +39,7 @@ type drvTree interface {
 	Seq(sel []string, stop, passes int) ([][]kv, int)
 	// SeqHook makes one complete pass and calls hook(i) from inside the loop body before taking the i-th pair
 	SeqHook(sel []string, hook func(i int)) []kv
+	NestSelf(sel []string) (outer, inner []kv)
 	Dump() string
 	// TranscriptLit turns a generator literal into what the Lean driver needs (adds the sort key
 	// for collation trees).
@@ -134,6 +135,32 @@ func (a *adapter[K]) SeqHook(sel []string, hook func(i int)) []kv {
 		got[j] = kv{a.render(keys[j]), vals[j]}
 	}
 	return got
+}
+
+// NestSelf ranges over ONE sequence value from inside the loop body of a pass over that same value (the all-pairs
+// idiom); both the outer and the inner pass must be complete.
+func (a *adapter[K]) NestSelf(sel []string) (outer, inner []kv) {
+	seq := a.mkSeq(sel)
+	first := true
+	seq(func(k K, v int) bool {
+		outer = append(outer, kv{a.render(k), v})
+		if first {
+			first = false
+			seq(func(k2 K, v2 int) bool {
+				inner = append(inner, kv{a.render(k2), v2})
+				return true
+			})
+		}
+		return true
+	})
+	if first {
+		// an empty sequence has no loop body to nest in: the second pass runs afterwards
+		seq(func(k2 K, v2 int) bool {
+			inner = append(inner, kv{a.render(k2), v2})
+			return true
+		})
+	}
+	return outer, inner
 }
 
 func (a *adapter[K]) Seq(sel []string, stop, passes int) ([][]kv, int) {
@@ -363,9 +390,10 @@ func decField(f string, b []byte) string {
 
 func (c schemaCodec) Transform(k string) ([]byte, []byte) {
 	parts := strings.Split(k, ",")
-	var out []byte
-	for i, f := range c.fields {
-		out = append(out, encField(f, parts[i])...)
+	// the obvious way to concatenate: append the later fields onto the slice the first codec returned
+	out := encField(c.fields[0], parts[0])
+	for i, f := range c.fields[1:] {
+		out = append(out, encField(f, parts[i+1])...)
 	}
 	return out, out
 }
